@@ -532,6 +532,7 @@ def Ty.size : Ty → Nat
   | .poly t => 1 + t.size
   | .struct fs => 1 + Ty.sizes fs
   | .enum vars => 1 + Ty.sizess vars
+  | .u32s _ => 2
   | _ => 1
 def Ty.sizes : List Ty → Nat
   | [] => 0
